@@ -2,6 +2,7 @@ CONSTANTS
   KF_NodeReq = TRUE
   LookupMode = "old"
   KF_EndTest = TRUE
+  KF_WildHost = TRUE
   KF_WildNew = TRUE
   FlowDomain = {}
   TxnDomain = {}
